@@ -67,6 +67,7 @@ def single_faults(keys, n, wide):
     for i in range(n):
         out.append(("drop", i))
         out.append(("blank", i))
+        out.append(("inf", i))  # an infinite value is a value: present, not empty
         if wide is None:
             out.append(("dup_same", i, "adjacent"))
             out.append(("dup_same", i, "end"))
@@ -111,6 +112,10 @@ def apply_faults(keys, faults):
             for r in rows:
                 if r[2] == f[1] and not r[0].get("_dup"):
                     r[1] = float("nan")
+        elif kind == "inf":
+            for r in rows:
+                if r[2] == f[1] and not r[0].get("_dup"):
+                    r[1] = float("inf") if f[1] % 2 == 0 else float("-inf")
         elif kind in ("dup_same", "dup_diff"):
             lab, v = recs[f[1]]
             new = [dict(lab, _dup=True), v if kind == "dup_same" else v + 1000.0, f[1]]
@@ -278,6 +283,8 @@ def run_case(keys, lay, faults, flags, entry):
         has_index = isinstance(df.index, pd.MultiIndex) or df.index.name is not None or any(n is not None for n in df.index.names)
         if lay["index"]:
             has_index = True
+        if any(x[0] == "drop_column" for x in structural) and isinstance(df.index, pd.RangeIndex):
+            has_index = False  # (the dimension column was removed together with the index: do not write a row counter in its place)
         if entry == "csv":
             path = os.path.join(tmp, "p.csv")
             df.to_csv(path, index=has_index)
@@ -325,12 +332,45 @@ def run_case(keys, lay, faults, flags, entry):
     return "tolerated-correctly", None
 
 
+def run_large_case(flags, entry):
+    """an array with more than 32767 entries (3 dimensions, none of them long): some rows missing, one row with an
+    unknown item - every present entry is placed under its labels, under any admissible flag combination"""
+    from flodym import Dimension, DimensionSet, FlodymArray
+
+    case = dict(large=True, flags=list(flags), entry=entry)
+    ds = DimensionSet(dim_list=[Dimension(name="Xdim", letter="x", items=list(range(1000, 1041)), dtype=int), Dimension(name="Ydim", letter="y", items=[f"y{i}" for i in range(30)]), Dimension(name="Zdim", letter="z", items=[f"z{i}" for i in range(29)])])
+    v = np.arange(float(41 * 30 * 29)).reshape(41, 30, 29) * 0.5 + 1.0
+    df = FlodymArray(dims=ds, values=v).to_df(index=False)
+    df = df.iloc[list(range(11, len(df))) + list(range(11))].reset_index(drop=True)
+    want = v.copy()
+    if flags[0]:  # rows missing
+        drop = [5, 20000, len(df) - 3]
+        for k in drop:
+            r = df.iloc[k]
+            want[ds["x"].items.index(int(r["Xdim"])), ds["y"].items.index(r["Ydim"]), ds["z"].items.index(r["Zdim"])] = 0.0
+        df = df.drop(index=drop).reset_index(drop=True)
+    if flags[1]:
+        df = pd.concat([df, pd.DataFrame({"Xdim": [1000], "Ydim": ["unknown"], "Zdim": ["z0"], "value": [5.5]})], ignore_index=True)
+    if entry == "from_df":
+        st, got = attempt(lambda: FlodymArray.from_df(dims=ds, df=df, allow_missing_values=flags[0], allow_extra_values=flags[1]))
+    else:
+        tgt = FlodymArray(dims=ds, values=np.full(ds.shape, 777.0))
+        st, got = attempt(lambda: (tgt.set_values_from_df(df, allow_missing_values=flags[0], allow_extra_values=flags[1]), tgt)[1])
+    tags = dict(entry=entry, header="names", wide=False, faults="large", flags=f"{int(flags[0])}{int(flags[1])}")
+    if st == "raised":
+        return "fail", dict(case=case, tags=dict(tags, kind="refused"), what=f"41 x 30 x 29 array ({v.size} entries) via {entry}, flags {flags}: refused although the flags cover the data: {got}")
+    if got.values.shape != want.shape or not np.array_equal(got.values, want):
+        bad = np.argwhere(got.values != want)
+        return "fail", dict(case=case, tags=dict(tags, kind="wrong-values"), what=f"41 x 30 x 29 array ({v.size} entries) via {entry}, flags {flags}: {len(bad)} entries differ from the rows carrying their labels, first {tuple(int(i) for i in bad[0])}: {got.values[tuple(bad[0])]!r} instead of {want[tuple(bad[0])]!r}")
+    return "tolerated-correctly", None
+
+
 def bounds(tier):
     return dict(tables=[list(t) for t in (TABLES_Q if tier == "quick" else TABLES_T)], flags=FLAGS, entries=["from_df", "set_values_from_df", "csv", "excel"], fault_pairs=True)
 
 
 def units(tier, seed):
-    out = []
+    out = [dict(kind="large")]
     tables = TABLES_Q if tier == "quick" else TABLES_T
     for keys in tables:
         n = len(F.records(keys))
@@ -344,6 +384,17 @@ def units(tier, seed):
 
 
 def run_unit(u):
+    if u["kind"] == "large":
+        res = dict(evals=0, nontrivial=0, outcomes={}, fails=[], samples=[])
+        for flags in FLAGS:
+            for entry in ("from_df", "set_values_from_df"):
+                oc, f = run_large_case(flags, entry)
+                res["evals"] += 1
+                res["nontrivial"] += 1
+                res["outcomes"][oc] = res["outcomes"].get(oc, 0) + 1
+                if f:
+                    res["fails"].append(f)
+        return res
     keys, lay = u["keys"], u["lay"]
     n = len(F.records(keys))
     res = dict(evals=0, nontrivial=0, outcomes={}, fails=[], samples=[])
@@ -377,5 +428,8 @@ def run_unit(u):
 
 
 def replay(case):
+    if case.get("large"):
+        oc, f = run_large_case(tuple(case["flags"]), case["entry"])
+        return [f] if f else []
     oc, f = run_case(case["keys"], case["layout"], [tuple(x) for x in case["faults"]], tuple(case["flags"]), case["entry"])
     return [f] if f else []
